@@ -310,92 +310,7 @@ Proof.
   intros v (j & Hj & ->). apply cg_residual_orth_directions; assumption.
 Qed.
 
-(* ---------------- the error: A-orthogonality = optimality in algebraic form ---------------- *)
-Variable xs : vec.
-Hypothesis Lxs : length xs = n.
-Hypothesis Hxs : A xs = f.
-Definition ek k := vsub xs (xk k).
-Lemma len_e k : length (ek k) = n.
-Proof. unfold ek. len. Qed.
-Lemma A_ek k : A (ek k) = rk k.
-Proof. unfold ek. rewrite (lin_sub Srt n A A_lin), Hxs, rk_residual by len. reflexivity. Qed.
-
-Theorem cg_error_A_orthogonal k : nobreak k ->
-  forall v, span n (Pgen k) v -> rdot (ek k) (A v) = s0.
-Proof.
-  intros NB v Hv. pose proof (span_len n (Pgen k) (Pgen_len k) v Hv) as Lv.
-  rewrite <- A_sym, A_ek by (auto using len_e). apply cg_galerkin; assumption.
-Qed.
-
-(* expansion of the energy of a perturbed error *)
-Lemma energy_expand k v : nobreak k -> span n (Pgen k) v ->
-  rdot (vadd (ek k) v) (A (vadd (ek k) v)) = rdot (ek k) (A (ek k)) + rdot v (A v).
-Proof.
-  intros NB Hv. pose proof (span_len n (Pgen k) (Pgen_len k) v Hv) as Lv.
-  pose proof (len_e k) as Le.
-  rewrite (lin_add Srt n A A_lin) by assumption.
-  rewrite (rdot_vadd_l Srt), !(rdot_vadd_r Srt Sreal) by (rewrite ?A_len; congruence).
-  rewrite (cg_error_A_orthogonal k NB v Hv).
-  rewrite A_ek, (rdot_sym Srt Sreal v (rk k)), (cg_galerkin k NB v Hv). ring.
-Qed.
-
-(* ---------------- ordered field: A-norm optimality ---------------- *)
-Hypothesis Ord : ordered S.
-
-Section Optimal.
-(* A positive semi-definite *)
-Hypothesis A_psd : forall v, length v = n -> ole s0 (rdot v (A v)).
-
-(* the error of x_k is A-norm minimal among all e_k + v, v in the span of the directions *)
-Theorem cg_A_norm_optimal k : nobreak k -> forall v, span n (Pgen k) v ->
-  ole (rdot (ek k) (A (ek k))) (rdot (vadd (ek k) v) (A (vadd (ek k) v))).
-Proof.
-  intros NB v Hv. rewrite (energy_expand k v NB Hv).
-  pose proof (span_len n (Pgen k) (Pgen_len k) v Hv) as Lv.
-  replace (rdot (ek k) (A (ek k))) with (rdot (ek k) (A (ek k)) + s0) at 1 by ring.
-  apply (ole_add Srt Ord); [apply (ole_refl Ord)|apply A_psd, Lv].
-Qed.
-
-(* the same in terms of iterates: x_k has the smallest A-norm error in the affine space x0 + span *)
-Definition err (y : vec) : S := rdot (vsub xs y) (A (vsub xs y)).
-Theorem cg_iterate_optimal k : nobreak k ->
-  forall y, length y = n -> span n (Pgen k) (vsub y x0) -> ole (err (xk k)) (err y).
-Proof.
-  intros NB y Ly Hy. unfold err. fold (ek k).
-  assert (Hv : span n (Pgen k) (vsub (xk k) y)).
-  { replace (vsub (xk k) y) with (vsub (vsub (xk k) x0) (vsub y x0)).
-    - apply (span_sub Srt); [apply cg_iterate_in_span|exact Hy].
-    - apply (vec_ext_n n); [len|len|]. intros i Hi. vnth. ring. }
-  replace (vsub xs y) with (vadd (ek k) (vsub (xk k) y)).
-  - apply cg_A_norm_optimal; assumption.
-  - unfold ek. apply (vec_ext_n n); [len|len|]. intros i Hi. vnth. ring.
-Qed.
-End Optimal.
-
-(* ---------------- no breakdown while the residual is non-zero (A, P positive definite) ---------------- *)
-Section NoBreak.
-Hypothesis A_pd : forall v, length v = n -> v <> zeron n -> olt s0 (rdot v (A v)).
-Hypothesis P_pd : forall v, length v = n -> v <> zeron n -> olt s0 (rdot v (P v)).
-
-Lemma olt_neq0 (a : S) : olt s0 a -> a <> s0.
-Proof. intros H E. rewrite E in H. unfold olt in H. rewrite (o_irrefl S Ord) in H. discriminate. Qed.
-
-Theorem cg_nobreak_while_residual_nonzero k : (forall j, j < k -> rk j <> zeron n) -> nobreak k.
-Proof.
-  induction k as [|k IH]; intros NZ j Hj; [lia|].
-  assert (NB : nobreak k) by (apply IH; intros i Hi; apply NZ; lia).
-  destruct (Nat.eq_dec j k) as [->|Ne]; [|apply NB; lia].
-  assert (Nrz : rzk k <> s0).
-  { rewrite rz_def. apply olt_neq0, P_pd; [len|apply NZ; lia]. }
-  split; [exact Nrz|].
-  rewrite (rdot_sym Srt Sreal). apply olt_neq0, A_pd; [len|].
-  intro Ep. destruct (CGI_all k NB) as (_ & _ & _ & I4).
-  rewrite Ep, (rdot_sym Srt Sreal), (rdot_zeron_l Srt) in I4. apply Nrz. symmetry. exact I4.
-Qed.
-End NoBreak.
-
 (* ---------------- the span of the directions IS the Krylov space K_k(PA, P r_0) ---------------- *)
-Section KrylovSpace.
 Hypothesis P_lin : linear_on n P.
 Definition PA (v : vec) : vec := P (A v).
 Fixpoint PAi (i : nat) (v : vec) : vec := match i with O => v | SS i' => PA (PAi i' v) end.
@@ -494,6 +409,93 @@ Proof. apply cg_directions_in_krylov, cg_iterate_in_span. Qed.
 Theorem cg_residual_orth_krylov k : nobreak k -> forall v, span n (Kgen k) v -> rdot (rk k) v = s0.
 Proof. intros NB v Hv. apply cg_galerkin; [exact NB|]. apply cg_krylov_in_directions; assumption. Qed.
 
+
+Hypothesis Ord : ordered S.
+
+(* ---------------- no breakdown while the residual is non-zero (A, P positive definite) ---------------- *)
+Section NoBreak.
+Hypothesis A_pd : forall v, length v = n -> v <> zeron n -> olt s0 (rdot v (A v)).
+Hypothesis P_pd : forall v, length v = n -> v <> zeron n -> olt s0 (rdot v (P v)).
+
+Lemma olt_neq0 (a : S) : olt s0 a -> a <> s0.
+Proof. intros H E. rewrite E in H. unfold olt in H. rewrite (o_irrefl S Ord) in H. discriminate. Qed.
+
+Theorem cg_nobreak_while_residual_nonzero k : (forall j, j < k -> rk j <> zeron n) -> nobreak k.
+Proof.
+  induction k as [|k IH]; intros NZ j Hj; [lia|].
+  assert (NB : nobreak k) by (apply IH; intros i Hi; apply NZ; lia).
+  destruct (Nat.eq_dec j k) as [->|Ne]; [|apply NB; lia].
+  assert (Nrz : rzk k <> s0).
+  { rewrite rz_def. apply olt_neq0, P_pd; [len|apply NZ; lia]. }
+  split; [exact Nrz|].
+  rewrite (rdot_sym Srt Sreal). apply olt_neq0, A_pd; [len|].
+  intro Ep. destruct (CGI_all k NB) as (_ & _ & _ & I4).
+  rewrite Ep, (rdot_sym Srt Sreal), (rdot_zeron_l Srt) in I4. apply Nrz. symmetry. exact I4.
+Qed.
+End NoBreak.
+
+(* ---------------- the error: A-orthogonality = optimality in algebraic form ---------------- *)
+Variable xs : vec.
+Hypothesis Lxs : length xs = n.
+Hypothesis Hxs : A xs = f.
+Definition ek k := vsub xs (xk k).
+Lemma len_e k : length (ek k) = n.
+Proof. unfold ek. len. Qed.
+Lemma A_ek k : A (ek k) = rk k.
+Proof. unfold ek. rewrite (lin_sub Srt n A A_lin), Hxs, rk_residual by len. reflexivity. Qed.
+
+Theorem cg_error_A_orthogonal k : nobreak k ->
+  forall v, span n (Pgen k) v -> rdot (ek k) (A v) = s0.
+Proof.
+  intros NB v Hv. pose proof (span_len n (Pgen k) (Pgen_len k) v Hv) as Lv.
+  rewrite <- A_sym, A_ek by (auto using len_e). apply cg_galerkin; assumption.
+Qed.
+
+(* expansion of the energy of a perturbed error *)
+Lemma energy_expand k v : nobreak k -> span n (Pgen k) v ->
+  rdot (vadd (ek k) v) (A (vadd (ek k) v)) = rdot (ek k) (A (ek k)) + rdot v (A v).
+Proof.
+  intros NB Hv. pose proof (span_len n (Pgen k) (Pgen_len k) v Hv) as Lv.
+  pose proof (len_e k) as Le.
+  rewrite (lin_add Srt n A A_lin) by assumption.
+  rewrite (rdot_vadd_l Srt), !(rdot_vadd_r Srt Sreal) by (rewrite ?A_len; congruence).
+  rewrite (cg_error_A_orthogonal k NB v Hv).
+  rewrite A_ek, (rdot_sym Srt Sreal v (rk k)), (cg_galerkin k NB v Hv). ring.
+Qed.
+
+(* ---------------- ordered field: A-norm optimality ---------------- *)
+
+Section Optimal.
+(* A positive semi-definite *)
+Hypothesis A_psd : forall v, length v = n -> ole s0 (rdot v (A v)).
+
+(* the error of x_k is A-norm minimal among all e_k + v, v in the span of the directions *)
+Theorem cg_A_norm_optimal k : nobreak k -> forall v, span n (Pgen k) v ->
+  ole (rdot (ek k) (A (ek k))) (rdot (vadd (ek k) v) (A (vadd (ek k) v))).
+Proof.
+  intros NB v Hv. rewrite (energy_expand k v NB Hv).
+  pose proof (span_len n (Pgen k) (Pgen_len k) v Hv) as Lv.
+  replace (rdot (ek k) (A (ek k))) with (rdot (ek k) (A (ek k)) + s0) at 1 by ring.
+  apply (ole_add Srt Ord); [apply (ole_refl Ord)|apply A_psd, Lv].
+Qed.
+
+(* the same in terms of iterates: x_k has the smallest A-norm error in the affine space x0 + span *)
+Definition err (y : vec) : S := rdot (vsub xs y) (A (vsub xs y)).
+Theorem cg_iterate_optimal k : nobreak k ->
+  forall y, length y = n -> span n (Pgen k) (vsub y x0) -> ole (err (xk k)) (err y).
+Proof.
+  intros NB y Ly Hy. unfold err. fold (ek k).
+  assert (Hv : span n (Pgen k) (vsub (xk k) y)).
+  { replace (vsub (xk k) y) with (vsub (vsub (xk k) x0) (vsub y x0)).
+    - apply (span_sub Srt); [apply cg_iterate_in_span|exact Hy].
+    - apply (vec_ext_n n); [len|len|]. intros i Hi. vnth. ring. }
+  replace (vsub xs y) with (vadd (ek k) (vsub (xk k) y)).
+  - apply cg_A_norm_optimal; assumption.
+  - unfold ek. apply (vec_ext_n n); [len|len|]. intros i Hi. vnth. ring.
+Qed.
+End Optimal.
+
+
 (* THE optimality theorem: x_k minimises the A-norm of the error over x0 + K_k(PA, P r0) *)
 Theorem cg_minimises_A_norm_over_krylov k :
   (forall v, length v = n -> ole s0 (rdot v (A v))) -> nobreak k ->
@@ -503,7 +505,6 @@ Proof.
   intros A_psd NB. split; [apply cg_iterate_in_krylov|].
   intros y Ly Hy. apply cg_iterate_optimal; auto. apply cg_krylov_in_directions; assumption.
 Qed.
-End KrylovSpace.
 
 End CGMath.
 
@@ -538,3 +539,54 @@ Proof.
   - split; [exact Hk|exact Hx].
 Qed.
 End CGModel.
+
+(* ------------------------------------------------------------------ *)
+(* The headline statement on the model of cg.hpp: what Krylov.cg returns after k_it iterations
+   has the smallest A-norm error in x0 + K_{k_it}(PA, P r0). *)
+Section CGModelOptimal.
+Context {S : Scalar}.
+Local Notation vec := (vec S).
+Hypothesis Sft : Sfield S.
+Hypothesis Seqb : seqb_spec S.
+Hypothesis Sreal : forall x : S, sadj x = x.
+Hypothesis Ord : ordered S.
+Variable n : nat.
+Variables A P : vec -> vec.
+Hypothesis A_len : forall v, length v = n -> length (A v) = n.
+Hypothesis P_len : forall v, length v = n -> length (P v) = n.
+Hypothesis A_sym : forall x y, length x = n -> length y = n -> rdot (A x) y = rdot x (A y).
+Hypothesis P_sym : forall x y, length x = n -> length y = n -> rdot (P x) y = rdot x (P y).
+Hypothesis A_lin : linear_on n A.
+Hypothesis P_lin : linear_on n P.
+Hypothesis A_psd : forall v, length v = n -> ole s0 (rdot v (A v)).
+
+Theorem cg_model_minimises_A_norm (prm : kprm) (f x0 xs : vec) junk nr r w :
+  length f = n -> length x0 = n -> length xs = n -> A xs = f ->
+  k_prologue norm_a prm f = Go nr ->
+  cg A P prm f x0 junk = (KOk r, w) ->
+  nobreak A P f x0 (k_it r) ->
+  span n (Kgen A P f x0 (k_it r)) (vsub (k_x r) x0) /\
+  forall y, length y = n -> span n (Kgen A P f x0 (k_it r)) (vsub y x0) ->
+    ole (err A xs (k_x r)) (err A xs y).
+Proof.
+  intros Lf Lx Lxs Hxs Hp Hc NB.
+  destruct (cg_model_returns_seq (F_R Sft) Seqb n A P A_len P_len A_lin prm f x0 junk nr r w Lf Lx Hp Hc) as (_ & E).
+  rewrite E.
+  exact (cg_minimises_A_norm_over_krylov Sft Sreal n A P A_len P_len A_sym P_sym f x0 Lf Lx A_lin P_lin
+           Ord xs Lxs Hxs (k_it r) A_psd NB).
+Qed.
+
+(* ... and its residual is orthogonal to that Krylov space (Galerkin) *)
+Theorem cg_model_galerkin (prm : kprm) (f x0 : vec) junk nr r w :
+  length f = n -> length x0 = n ->
+  k_prologue norm_a prm f = Go nr ->
+  cg A P prm f x0 junk = (KOk r, w) ->
+  nobreak A P f x0 (k_it r) ->
+  forall v, span n (Kgen A P f x0 (k_it r)) v -> rdot (vsub f (A (k_x r))) v = s0.
+Proof.
+  intros Lf Lx Hp Hc NB v Hv.
+  destruct (cg_model_returns_seq (F_R Sft) Seqb n A P A_len P_len A_lin prm f x0 junk nr r w Lf Lx Hp Hc) as (_ & E).
+  rewrite E, <- (rk_residual Sft n A P A_len P_len f x0 Lf Lx A_lin).
+  exact (cg_residual_orth_krylov Sft Sreal n A P A_len P_len A_sym P_sym f x0 Lf Lx A_lin P_lin (k_it r) NB v Hv).
+Qed.
+End CGModelOptimal.
